@@ -524,7 +524,26 @@ def r_bounded_write(ctx):
                 helpers = [(c, tg) for s_ in hd.body for c in ast.walk(s_) if isinstance(c, ast.Call) for tg in P.resolve_call(m, c).targets if tg.owner_cls is rf]
                 problems = []
                 if not helpers:
-                    problems.append('the handler neither re-raises nor calls a method that grows the file')
+                    # the growth written out in the handler itself: write(b'..' * (new size - capacity)), then the map is assigned again
+                    def _is_cap0(e):
+                        if isinstance(e, ast.Name):
+                            v_ = U.single_assign_value(m, e.id)
+                            e = v_ if v_ is not None else e
+                        return isinstance(e, ast.Call) and isinstance(e.func, ast.Attribute) and e.func.attr == 'size' and P.self_attr(e.func.value, m.self_name) == mm_attr
+                    grows0 = []
+                    for s_ in hd.body:
+                        for w in ast.walk(s_):
+                            if isinstance(w, ast.Call) and isinstance(w.func, ast.Attribute) and w.func.attr == 'write' and w.args and isinstance(w.args[0], ast.BinOp) \
+                                    and isinstance(w.args[0].op, ast.Mult):
+                                amt = w.args[0].right if isinstance(w.args[0].left, ast.Constant) else w.args[0].left
+                                if isinstance(amt, ast.BinOp) and isinstance(amt.op, ast.Sub) and unparse(amt.left) == unparse(rz[0].args[0]) and _is_cap0(amt.right):
+                                    grows0.append(w)
+                    remap0 = [d for s_ in hd.body for d in ast.walk(s_) if isinstance(d, ast.Assign) and P.self_attr(d.targets[0], m.self_name) == mm_attr
+                              and isinstance(d.value, ast.Call) and unparse(d.value.func).endswith('mmap')]
+                    if grows0 and remap0 and U.ordr(m, grows0[0]) < U.ordr(m, remap0[-1]):
+                        ctx.ok(inst2, m.loc(hd), 'the handler appends (new size - capacity) bytes and maps the file again')
+                        continue
+                    problems.append('the handler neither re-raises nor grows the file by (new size - capacity) and maps it again')
                 for c, hlp in helpers:
                     a0 = c.args[0] if c.args else None
                     def _is_cap(e):
